@@ -402,7 +402,7 @@ class MsgPackDeserializer {
         return err;
 
       JsonString key = stringBuffer_.str();
-      TFilter memberFilter = filter[key.c_str()];
+      TFilter memberFilter = filter[key];
       VariantData* member;
 
       if (memberFilter.allow()) {
